@@ -423,7 +423,11 @@ func (s *BaseNodeService) ProposeSignMessages(dtoMsg *dto.ProposeSignBatchMessag
 		return fmt.Errorf("failed to determine FSM instance state: %w", err)
 	}
 
-	if fsmState != sif.StateSigningIdle {
+	// a batch cancelled by failure reports or by timeout leaves the round stored in a cancelled
+	// signing state: it returns to idle when its next message - this proposal - is handled
+	switch fsmState {
+	case sif.StateSigningIdle, sif.StateSigningPartialSignsAwaitCancelledByError, sif.StateSigningPartialSignsAwaitCancelledByTimeout:
+	default:
 		return fmt.Errorf("required FSM state is %s, but have %s", sif.StateSigningIdle, fsmState)
 	}
 
